@@ -25,10 +25,17 @@ func allocOf(f func()) uint64 {
 	return b.TotalAlloc - a.TotalAlloc
 }
 
-// allocBound is the C02 memory bound: a constant multiple of the input length plus a constant.
-// Calibrated on the unchanged tree: worst legitimate expansion 58x (thousands of zero-length
-// leaves), error paths < 3 KiB; an attacker-sized make() exceeds it by orders of magnitude.
-func allocBound(n int) uint64 { return 128*uint64(n) + 256<<10 }
+// allocBound is the C02 memory bound: a constant multiple of the input length plus a constant. The
+// multiple has two parts. (1) Leaves: the worst legitimate expansion measured on the unchanged tree is
+// 58x (thousands of zero-length leaves, each a small object) - 128x allows for that. (2) Lists: a list
+// header may claim as many children as the REMAINING input could hold (two bytes per child), and
+// the decoder may size its child slice for that claim before reading the children: 16 bytes per
+// claimed child = 8 bytes per remaining input byte, at each of the at most 64 nesting levels the
+// decoder accepts (a native-fuzz input of 2.3 kB - 64 nested lists each claiming 514 children -
+// allocated 260x its length; the first bound of 128x, calibrated on random trees only, was wrong).
+// Anything sized from a claimed length ALONE (2^24 children, a 16 MiB string) exceeds this by orders
+// of magnitude.
+func allocBound(n int) uint64 { return (128+8*64)*uint64(n) + 256<<10 }
 
 type decodeResult struct {
 	item  secs2.Item
@@ -153,7 +160,7 @@ func TestC02Hostile(t *testing.T) {
 	old := debug.SetGCPercent(-1)
 	defer debug.SetGCPercent(old)
 	defer ev.Flush()
-	ev.Rule("exhaustive family: all 64 format codes x length-byte counts 0..3 x claimed lengths {0,1,2,3,7,8,255,256,65535,65536,2^24-1} x 0..3 trailing data bytes x {bare, first child of a 2-list, nested 64 deep}; same oracle as TestC02Decode")
+	ev.Rule("exhaustive family: all 64 format codes x length-byte counts 0..3 x claimed lengths {0,1,2,3,7,8,255,256,65535,65536,2^24-1} x 0..3 trailing data bytes x {bare, first child of a 2-list, nested 64 deep}; plus 1-65 nested lists each claiming the most children the remaining bytes (64 B - 65 kB) allow; same oracle as TestC02Decode")
 	lengths := []int{0, 1, 2, 3, 7, 8, 255, 256, 65535, 65536, 1<<24 - 1}
 	count := 0
 	for fc := 0; fc < 64; fc++ {
@@ -189,6 +196,30 @@ func TestC02Hostile(t *testing.T) {
 			}
 		}
 		runtime.GC()
+	}
+	// nested lists, each claiming as many children as the remaining bytes allow (the shape that
+	// maximises what a decoder may pre-size from claims that pass a remaining-bytes check)
+	for _, total := range []int{64, 200, 2318, 20000, 65000} {
+		for _, depth := range []int{1, 8, 63, 64, 65} {
+			in := make([]byte, 0, total)
+			for d := 0; d < depth && len(in)+3 <= total; d++ {
+				claim := min((total-len(in)-3)/2, 0xffff)
+				in = append(in, 0x02, byte(claim>>8), byte(claim))
+			}
+			for len(in) < total {
+				in = append(in, 0x02)
+			}
+			msg, _, accepted := checkDecode(in)
+			acc := "rejected"
+			if accepted {
+				acc = "accepted"
+			}
+			ev.Case(true, string(in), func() any { return map[string]any{"input": hexTrunc(in), "outcome": acc} }, "hostile:max-claims", "hostile:"+acc)
+			count++
+			if msg != "" {
+				t.Fatalf("VERIF-VIOLATION: C02 violated for %d nested lists claiming the most children %d bytes allow: %s", depth, total, msg)
+			}
+		}
 	}
 	t.Logf("enumerated %d hostile inputs", count)
 }
